@@ -164,3 +164,28 @@ def rfc_encode(fin, r1, r2, r3, op, maskbit, key, payload):
     the RFC.  Masked frames: header, 4 key bytes, payload xor key cyclically."""
     hdr = rfc_header(fin, r1, r2, r3, op, maskbit, slen(payload))
     return z3.If(maskbit == 1, cat(hdr, cat(key, smt.xormask(payload, key))), cat(hdr, payload))
+
+
+# ---------------------------------------------------------------- RFC 6455 5.2 decoder spec (over the stream rx at offset f)
+class Dec:
+    """Fields of the frame that starts at offset f of the byte stream rx, as RFC 6455 5.2 defines them."""
+
+    def __init__(self, rx, f):
+        b0, b1 = at(rx, f), at(rx, f + 1)
+        self.fin = b0 / 128
+        self.rsv1 = (b0 / 64) % 2
+        self.rsv2 = (b0 / 32) % 2
+        self.rsv3 = (b0 / 16) % 2
+        self.opcode = b0 % 16
+        self.masked = b1 / 128
+        self.l7 = b1 % 128
+        self.ext = z3.If(self.l7 == 126, 2, z3.If(self.l7 == 127, 8, 0))
+        self.length = z3.If(self.l7 == 126, at(rx, f + 2) * 256 + at(rx, f + 3),
+                            z3.If(self.l7 == 127, z3.Sum([at(rx, f + 2 + j) * (256 ** (7 - j)) for j in range(8)]), self.l7))
+        self.keypos = f + 2 + self.ext
+        self.paypos = self.keypos + 4 * self.masked
+        self.next = self.paypos + self.length
+        self.key = slc(rx, self.keypos, self.keypos + 4)
+        raw = slc(rx, self.paypos, self.next)
+        self.payload = z3.If(self.masked == 1, smt.xormask(raw, self.key), raw)
+        self.header = (self.fin, self.rsv1, self.rsv2, self.rsv3, self.opcode, self.masked, self.l7)
